@@ -8,14 +8,15 @@ Theorem loss_split k s l :
   gs_est s = true ->
   let s' := gstep k s (GLoss l) in
   if qualifying k s l
-  then map fst (gs_routes s') = map fst (gs_routes s) /\ Forall (fun r => snd r = true) (gs_routes s') /\
+  then (forall key st, In (key, st) (gs_routes s') <->
+          (st = true /\ fam_gr k (gs_cap s) (fst key) = true /\ exists st0, In (key, st0) (gs_routes s))) /\
        gs_restarting s' = true /\ gs_timer s' = Some (restart_time s)
   else gs_routes s' = [] /\ gs_restarting s' = false.
 Proof.
-  intros E. cbn [gstep]. rewrite E. destruct (qualifying k s l); cbn.
-  - split; [now rewrite map_map|]. split; [|auto]. apply Forall_forall. intros r H. apply in_map_iff in H.
-    destruct H as (x & <- & _). reflexivity.
-  - auto.
+  intros E. cbn [gstep]. rewrite E. destruct (qualifying k s l); cbn; [|auto].
+  split; [|auto]. intros key st. rewrite in_map_iff. split.
+  - intros ([k0 st0] & H & Hin). injection H as <- <-. apply filter_In in Hin. destruct Hin as [Hin Hf]. cbn in *. eauto.
+  - intros (-> & Hf & st0 & Hin). exists (key, st0). split; [reflexivity|]. apply filter_In. auto.
 Qed.
 
 Theorem qualifying_cases k s l :
@@ -33,19 +34,19 @@ Proof.
     exfalso. auto.
 Qed.
 
-(* ---- the restart timer: stale routes stay exactly until it runs out *)
+(* ---- the restart timer *)
 Fixpoint gticks (k : gcfg) (n : nat) (s : gstate) : gstate :=
   match n with O => s | S m => gticks k m (gstep k s GTick) end.
 
 Lemma tick_keeps k s t :
   gs_est s = false -> gs_timer s = Some t -> 1 < t ->
-  gstep k s GTick = mkGS false (gs_cap s) (gs_restarting s) (Some (t - 1)) (gs_routes s).
+  gstep k s GTick = mkGS false (gs_cap s) (gs_restarting s) (Some (t - 1)) (gs_eor4 s) (gs_eor6 s) (gs_routes s).
 Proof.
   intros E T H. cbn [gstep]. rewrite T, E. assert (F : (t - 1 <=? 0) = false) by (apply Z.leb_gt; lia). now rewrite F.
 Qed.
 
 Lemma tick_expires k s :
-  gs_est s = false -> gs_timer s = Some 1 -> gstep k s GTick = mkGS false (gs_cap s) false None [].
+  gs_est s = false -> gs_timer s = Some 1 -> gstep k s GTick = mkGS false (gs_cap s) false None false false [].
 Proof. intros E T. cbn [gstep]. rewrite T, E. reflexivity. Qed.
 
 Theorem restart_timer_exact k : forall (n : nat) s,
@@ -68,70 +69,84 @@ Proof.
     + change (gticks k (S (S n)) s) with (gticks k (S n) (gstep k s GTick)). exact C.
 Qed.
 
-(* ---- re-establishment: announcements refresh, End-of-RIB removes what was not re-announced *)
-Lemma rset_fresh p l : In (p, false) (rset p false l).
-Proof. induction l as [|[q s] r IH]; cbn; [auto|]. destruct (q =? p); cbn; auto. Qed.
-
-Lemma rset_other p q st l : q <> p -> (In (q, st) (rset p false l) <-> In (q, st) l).
+(* ---- End-of-RIB *)
+Lemma fresh_only_spec l key st : In (key, st) (fresh_only l) <-> In (key, st) l /\ st = false.
 Proof.
-  intros N. induction l as [|[x s] r IH]; cbn.
-  - split; [intros [H|[]]; injection H; intros; subst; contradiction|intros []].
-  - destruct (Z.eqb_spec x p) as [->|Nx]; cbn.
-    + split; intros [H|H]; auto; injection H; intros; subst; contradiction.
-    + rewrite IH. reflexivity.
-Qed.
-
-Theorem eor_drops_exactly_the_stale k s :
-  gs_est s = true -> gs_restarting s = true ->
-  let s' := gstep k s GEor in
-  gs_restarting s' = false /\
-  forall p st, In (p, st) (gs_routes s') <-> (In (p, st) (gs_routes s) /\ st = false).
-Proof.
-  intros E R. cbn [gstep]. rewrite E, R. cbn. split; [reflexivity|].
-  intros p st. rewrite filter_In. cbn. split; intros [H1 H2]; split; auto.
+  unfold fresh_only. rewrite filter_In. cbn. split; intros [H1 H2]; split; auto.
   - now apply negb_true_iff in H2.
   - subst st. reflexivity.
 Qed.
 
-Theorem announce_is_fresh k s p :
-  gs_est s = true -> In (p, false) (gs_routes (gstep k s (GAnn p))).
+(* once every family for which graceful restart was negotiated on the NEW session has sent End-of-RIB, exactly the
+   routes still stale are removed -- in every family, also those the new capability no longer lists *)
+Theorem eor_completes k s f :
+  gs_est s = true -> gs_restarting s = true ->
+  all_eor k (gs_cap s) (gs_eor4 s || (f =? 4)) (gs_eor6 s || (f =? 6)) = true ->
+  let s' := gstep k s (GEor f) in
+  gs_restarting s' = false /\
+  forall key st, In (key, st) (gs_routes s') <-> (In (key, st) (gs_routes s) /\ st = false).
+Proof.
+  intros E R A. cbn [gstep]. rewrite E, R, A. cbn. split; [reflexivity|]. intros key st. apply fresh_only_spec.
+Qed.
+
+(* ... and not before *)
+Theorem eor_incomplete_keeps k s f :
+  gs_est s = true -> gs_restarting s = true ->
+  all_eor k (gs_cap s) (gs_eor4 s || (f =? 4)) (gs_eor6 s || (f =? 6)) = false ->
+  let s' := gstep k s (GEor f) in gs_restarting s' = true /\ gs_routes s' = gs_routes s.
+Proof. intros E R A. cbn [gstep]. rewrite E, R, A. cbn. auto. Qed.
+
+Lemma rset_fresh key l : In (key, false) (rset key false l).
+Proof. induction l as [|[q s] r IH]; cbn; [auto|]. destruct (keq q key); cbn; auto. Qed.
+
+Theorem announce_is_fresh k s f p :
+  gs_est s = true -> In ((f, p), false) (gs_routes (gstep k s (GAnn f p))).
 Proof. intros E. cbn [gstep]. rewrite E. cbn. apply rset_fresh. Qed.
+
+(* the peer re-establishes with no graceful-restart family at all while its routes are retained: removed at once *)
+Theorem reestablish_without_gr k s cap :
+  gs_est s = false -> gs_restarting s = true -> all_eor k cap false false = true ->
+  let s' := gstep k s (GUp cap) in
+  gs_restarting s' = false /\ Forall (fun r => snd r = false) (gs_routes s').
+Proof.
+  intros E R A. cbn [gstep]. rewrite E, R, A. cbn. split; [reflexivity|].
+  apply Forall_forall. intros [key st] H. apply fresh_only_spec in H. cbn. tauto.
+Qed.
 
 (* ---- invariants over every history *)
 Definition ginv (s : gstate) : Prop :=
-  (* stale routes exist only while the peer is restarting *)
   (gs_restarting s = false -> Forall (fun r => snd r = false) (gs_routes s)) /\
-  (* without a session and without a restart in progress there is nothing at all *)
   (gs_est s = false -> gs_restarting s = false -> gs_routes s = []) /\
-  (* the restart timer runs only between the loss and the re-establishment *)
   (gs_est s = false -> gs_restarting s = true -> exists t, gs_timer s = Some t) /\
   (gs_restarting s = false -> gs_est s = false -> gs_timer s = None).
 
-Lemma forall_rset p l : Forall (fun r : Z * bool => snd r = false) l -> Forall (fun r => snd r = false) (rset p false l).
+Lemma forall_rset key l : Forall (fun r : (Z * Z) * bool => snd r = false) l -> Forall (fun r => snd r = false) (rset key false l).
 Proof.
   induction l as [|[q s] r IH]; cbn; intros H; [constructor; [reflexivity|constructor]|].
-  inversion H; subst. destruct (q =? p); constructor; auto.
+  inversion H; subst. destruct (keq q key); constructor; auto.
 Qed.
-Lemma forall_rdel p l : Forall (fun r : Z * bool => snd r = false) l -> Forall (fun r => snd r = false) (rdel p l).
+Lemma forall_rdel key l : Forall (fun r : (Z * Z) * bool => snd r = false) l -> Forall (fun r => snd r = false) (rdel key l).
 Proof.
-  induction l as [|[q s] r IH]; cbn; intros H; [constructor|]. inversion H; subst. destruct (q =? p); auto.
+  induction l as [|[q s] r IH]; cbn; intros H; [constructor|]. inversion H; subst. destruct (keq q key); auto.
 Qed.
+Lemma forall_fresh l : Forall (fun r : (Z * Z) * bool => snd r = false) (fresh_only l).
+Proof. apply Forall_forall. intros [key st] H. apply fresh_only_spec in H. cbn. tauto. Qed.
 
 Lemma ginv_step k s e : ginv s -> ginv (gstep k s e).
 Proof.
-  intros H. destruct e as [cap|p|p| |l|]; cbn [gstep].
+  intros H. destruct e as [cap|f p|f p|f|l|]; cbn [gstep].
   - destruct (gs_est s) eqn:E; [exact H|]. destruct H as (I1 & I2 & I3 & I4).
-    destruct (gs_restarting s && negb (gr_negotiated k _)) eqn:C.
-    + repeat split; cbn; try discriminate.
-      intros _. apply Forall_forall. intros r Hr. apply filter_In in Hr. destruct Hr as [_ Hr]. now apply negb_true_iff in Hr.
+    destruct (gs_restarting s && all_eor k cap false false) eqn:C.
+    + repeat split; cbn; try discriminate. intros _. apply forall_fresh.
     + repeat split; cbn; try discriminate. exact I1.
   - destruct (gs_est s) eqn:E; [|exact H]. destruct H as (I1 & I2 & I3 & I4).
     repeat split; cbn; try discriminate. intros R. apply forall_rset. auto.
   - destruct (gs_est s) eqn:E; [|exact H]. destruct H as (I1 & I2 & I3 & I4).
     repeat split; cbn; try discriminate. intros R. apply forall_rdel. auto.
-  - destruct (gs_est s) eqn:E; cbn [andb]; [|exact H].
-    destruct (gs_restarting s) eqn:R; [|exact H]. repeat split; cbn; try discriminate.
-    intros _. apply Forall_forall. intros r Hr. apply filter_In in Hr. destruct Hr as [_ Hr]. now apply negb_true_iff in Hr.
+  - destruct (gs_est s) eqn:E; [|exact H]. destruct H as (I1 & I2 & I3 & I4).
+    destruct (gs_restarting s && all_eor k (gs_cap s) _ _) eqn:C.
+    + repeat split; cbn; try discriminate. intros _. apply forall_fresh.
+    + repeat split; cbn; try discriminate. exact I1.
   - destruct (gs_est s) eqn:E; [|exact H].
     destruct (qualifying k s l); repeat split; cbn; try discriminate; eauto.
   - destruct (gs_timer s) as [t|] eqn:T; [|exact H]. destruct H as (I1 & I2 & I3 & I4).
@@ -147,19 +162,4 @@ Proof.
   unfold grun. assert (H : ginv ginit) by (repeat split; cbn; auto; try discriminate; constructor).
   revert H. generalize ginit. induction h as [|e h IH]; intros s H; cbn [fold_left]; [exact H|].
   apply IH. now apply ginv_step.
-Qed.
-
-(* the peer re-establishes WITHOUT the graceful restart capability while its routes are retained: they are removed at
-   once (RFC 4724 4.2), nothing stale survives *)
-Theorem reestablish_without_gr k s cap :
-  gs_est s = false -> gs_restarting s = true ->
-  (gc_local_gr k = false \/ cap = None) ->
-  let s' := gstep k s (GUp cap) in
-  gs_restarting s' = false /\ Forall (fun r => snd r = false) (gs_routes s').
-Proof.
-  intros E R H. cbn [gstep]. rewrite E, R. unfold gr_negotiated. cbn [gs_cap andb].
-  assert (C : negb (gc_local_gr k && match cap with Some _ => true | None => false end) = true).
-  { destruct H as [->| ->]; [reflexivity|]. destruct (gc_local_gr k); reflexivity. }
-  rewrite C. cbn. split; [reflexivity|].
-  apply Forall_forall. intros r Hr. apply filter_In in Hr. destruct Hr as [_ Hr]. now apply negb_true_iff in Hr.
 Qed.
